@@ -377,6 +377,13 @@ class CNP:
 
     @staticmethod
     def array(f, dtype=None, copy=True):
+        # NumPy >= 2: copy=True always copies, copy=None copies if needed, copy=False NEVER copies (ValueError if a
+        # conversion would need one)
+        need = dtype is not None and f.dtype != dtype
+        if copy is False or (copy is None and not need):
+            if need:
+                raise ValueError('Unable to avoid copy while creating an array as requested.')
+            return f
         r = Filt(f.n, dtype or f.dtype)
         r.vals = list(f.vals)
         return r
